@@ -3,6 +3,9 @@ package main
 import "time"
 
 var configs = map[string]checkCfg{
+	"C03": {QuickBudget: 150 * time.Second, ThoroughBudge: 20 * time.Minute,
+		Rule: "states = distinct inputs per tree (every witness prefix <= 600, all byte strings <= 2, concatenation and overlay of every ordered pair of witnesses), on the built-in tree and on 7 trees enlarged by Extend; transitions = (tree, input, limit) executions, each compared consultation-by-consultation with the reference first-match walk; non-trivial = executions whose model path has depth >= 3 or ends in an extension",
+		Assumptions: []string{"detectors are wrapped by a recorder through the in-package hook; (name, extension) identifies a node"}},
 	"C13": {QuickBudget: 150 * time.Second, ThoroughBudge: 20 * time.Minute,
 		Rule: "states = distinct inputs (all cell assignments of small tables and row-uniform larger ones x delimiter x EOL x final terminator; all record sequences of the NDJSON menu; every string over the csv converse alphabet and over the ndjson converse alphabet up to the length bound; damaged tables/streams with the damaged line at every position); transitions = (input, limit) executions (limit 0, len+1 and every limit from just after the second line terminator to len for positives; 0, len, len+1 for the converse); non-trivial = positive executions in truncated mode plus converse inputs",
 		Assumptions: []string{"not demanded: tables/streams whose first two lines include a blank or comment line, embedded newlines in quoted cells, bare quotes inside unquoted cells; blank lines are ignorable in tables as encoding/csv defines"}},
